@@ -404,9 +404,14 @@ def expect_match(names, raw, ic):
     return None
 
 
+def pv_names(pv):
+    """names and aliases of one possible value of a case; a leading `hide` only hides it from listings"""
+    return [x for x in pv if x != "hide"]
+
+
 def possible_oracle(case, impl):
     v = sx_parse(case)
-    ic, pvs, raw = v[1] == "true", v[2], unhex(v[3])
+    ic, pvs, raw = v[1] == "true", [pv_names(pv) for pv in v[2]], unhex(v[3])
     if not is_utf8(raw):
         return check_two(impl, ("err", "InvalidUtf8"), raw, lambda x: x)
     names = [unhex(x) for pv in pvs for x in pv]
@@ -424,7 +429,7 @@ def possible_nontrivial(case, impl):
     raw = unhex(v[3])
     if not is_utf8(raw):
         return False
-    return any(loose_ci(unhex(x), raw) for pv in v[2] for x in pv)
+    return any(loose_ci(unhex(x), raw) for pv in v[2] for x in pv_names(pv))
 
 
 NAME_POOL = ["a", "A", "ab", "Ab", "AB", "aB", "k", "K", "K", "s", "S", "ſ", "ss", "SS", "ß", "ẞ", "é", "É",
@@ -470,8 +475,10 @@ def gen_possible(tier, rng):
         else:
             val = rng.choice(names).encode() + bytes([rng.choice([0xff, 0x80, 0xc3])])
         ic = rng.choice(["true", "false"])
-        cases.append("(possible %s (%s) %s)" % (ic, " ".join("(" + " ".join(hexs(x) for x in pv) + ")" for pv in pvs),
-                                               hexs(val)))
+        # a declared value may be hidden from help/error listings (PossibleValue::hide); it is declared all the same
+        hid = [rng.random() < 0.25 for _ in pvs]
+        cases.append("(possible %s (%s) %s)" % (ic, " ".join("(" + ("hide " if h else "") + " ".join(hexs(x) for x in pv) + ")"
+                                                               for pv, h in zip(pvs, hid)), hexs(val)))
     return cases
 
 
